@@ -48,6 +48,12 @@ class Models:
         m = re.match(r"^(-?\d+)_(u|i)(\d+|size)$", s)
         if m:
             return Z(z3.IntVal(int(m.group(1))))
+        m = re.match(r"^core::num::<impl (u|i)(8|16|32|64)>::(MAX|MIN)$", s)
+        if m:
+            bits, signed = int(m.group(2)), m.group(1) == "i"
+            hi = 2 ** (bits - 1) - 1 if signed else 2 ** bits - 1
+            lo = -(2 ** (bits - 1)) if signed else 0
+            return Z(z3.IntVal(hi if m.group(3) == "MAX" else lo))
         if s == "()":
             return UNIT
         m = re.match(r"^\{(alloc\d+): &.*\}$", s)
@@ -262,7 +268,7 @@ class Models:
             v = deref(args[0])
             nm = v.data if isinstance(v, Opaque) and isinstance(v.data, str) else self.fresh_name("ts")
             return one(Z(z3.Int("unix_ts_" + str(nm))))
-        if re.match(r"^<.* as Into<.*>>::into$", c) or re.match(r"^<.* as From<.*>>::from$", c):
+        if re.match(r"^<.* as (std::convert::)?Into<.*>>::into$", c) or re.match(r"^<.* as From<.*>>::from$", c):
             return one(args[0])
         if re.match(r"^core::slice::<impl \[KeyUsagePurpose\]>::(is_empty|contains)$", c):
             what = "is_empty" if c.endswith("is_empty") else "contains_crl_sign"
@@ -438,7 +444,7 @@ class Models:
             a, b = deref(args[0]), deref(args[1])
             e = a.e == b.e
             return one(Z(z3.Not(e) if c.endswith("::ne") else e))
-        if re.match(r"^<impl Into<DnValue> as Into<DnValue>>::into$", c):
+        if re.match(r"^<impl Into<DnValue> as (std::convert::)?Into<DnValue>>::into$", c):
             return one(args[0])
         if re.match(r"^(certificate::)?DnType::to_oid$", c):
             return one(Z(to_oid(deref(args[0]).e)))
